@@ -53,6 +53,7 @@ type FuncContract struct {
 	NoPanicProps []string  // properties the nopanic obligations belong to (empty: all)
 	IfaceCheck   bool      // this is an interface contract being checked against one implementer
 	AlsoFor      []string  // properties for which only the explicitly tagged obligations of this function count
+	BodyRules    []string  // trusted contracts: properties for which the body is still executed (tagged obligations of its calls only)
 	GlobalInvs   []*TypeDecl
 	Implementers bool // iface: every implementer in the loaded program is verified against this contract
 	Owns         []*Clause
@@ -530,6 +531,12 @@ func (cs *ContractSet) parseLines(fname string, lines []struct {
 		case "alsofor":
 			if cur != nil {
 				cur.AlsoFor = append(cur.AlsoFor, strings.Fields(stripComment(rest))...)
+			}
+		case "bodyrules":
+			// bodyrules Cxx...: a trusted contract whose body is nevertheless executed for these properties, against the empty
+			// contract: its own ensures stay assumed, but the preconditions, sinks and protocols of what it calls are obligations
+			if cur != nil {
+				cur.BodyRules = append(cur.BodyRules, strings.Fields(stripComment(rest))...)
 			}
 		case "implementers":
 			if cur != nil {
